@@ -37,12 +37,29 @@ structure Store where
   kept : List String := []
 deriving Repr, Inhabited
 
-inductive Err | keyError | valueError | indexError
+inductive Err | keyError | valueError | indexError | typeError
 deriving Repr, DecidableEq
 
 /-- `RXNSide._normalize_any` on a mapping: drop non-positive counts, accumulate. -/
 def normSide (raw : List (String × Int)) : Side :=
   raw.foldl (fun out kv => if kv.2 > 0 then out.set kv.1 (out.getD kv.1 0 + kv.2.toNat) else out) []
+
+/-- One element of a non-mapping iterable handed to `RXNSide._normalize_any` (`RXNSide.from_any`,
+`RXNSide(data)`, and through them `add_rxn` / `HyperEdge` / `merge`): a 2-tuple `(species, count)`
+or anything else, which is taken as a species label. -/
+inductive SideItem
+  | pair (s : String) (c : Int)
+  | label (s : String)
+deriving Repr, DecidableEq, Inhabited
+
+/-- The `for item in obj:` branch of `RXNSide._normalize_any` as raw pairs for `normSide`:
+a pair contributes its count (dropped by `normSide` when not positive), a label contributes
+`+1` unless it is the empty string (`if s:`), which is skipped. -/
+def rawOfItems (items : List SideItem) : List (String × Int) :=
+  items.filterMap fun it =>
+    match it with
+    | .pair s c => some (s, c)
+    | .label s => if s = "" then none else some (s, 1)
 
 /-- `f"{rule}_{cnt}"`. -/
 def mkId (rule : String) (cnt : Nat) : String := rule ++ "_" ++ toString cnt
@@ -163,6 +180,29 @@ def Store.merge (s : Store) (other : List Edge) (pfx : Bool) : Store × Except E
     | (s2, .ok _) => s2.merge rest pfx
     | (s2, .error err) => (s2, .error err)
 
+/-- An edge of a "hypergraph-like object" handed to `merge` (anything with `edge_list()`):
+`id` is `getattr(e, "id", None)`, `rule` is `getattr(e, "rule", "r")`, the sides are whatever
+`RXNSide.from_any` accepts (an `RXNSide` is copied, which is the same value). -/
+structure FEdge where
+  id : Option String
+  rule : String
+  reactants : List SideItem
+  products : List SideItem
+deriving Repr, Inhabited
+
+def FEdge.toEdge (e : FEdge) : Edge :=
+  ⟨e.id.getD "", e.rule, normSide (rawOfItems e.reactants), normSide (rawOfItems e.products)⟩
+
+/-- `merge(other, prefix_edges)` for a foreign `other`: per edge the loop body of `merge`, where
+`new_id is None` forces a generated id exactly like `prefix_edges` does. -/
+def Store.mergeForeign (s : Store) (other : List FEdge) (pfx : Bool) : Store × Except Err Unit :=
+  match other with
+  | [] => (s, .ok ())
+  | e :: rest =>
+    match s.merge [e.toEdge] (pfx || e.id.isNone) with
+    | (s1, .ok _) => s1.mergeForeign rest pfx
+    | (s1, .error err) => (s1, .error err)
+
 /-- `assign_mol`. -/
 def Store.assignMol (s : Store) (sp : String) (m : String) : Store × Except Err Unit :=
   if sp ∈ s.species then ({ s with mol := s.mol.set sp m }, .ok ()) else (s, .error .keyError)
@@ -260,6 +300,7 @@ inductive Op
   | remove (k : Nat) (id : String)
   | removeSpecies (k : Nat) (sp : String) (prune : Bool)
   | merge (k j : Nat) (pfx : Bool)
+  | mergeEdges (k : Nat) (other : Option (List FEdge)) (pfx : Bool)
   | copy (k j : Nat)
   | assignMol (k : Nat) (sp m : String)
   | setMolMap (k : Nat) (mapping : List (String × String)) (strict clear : Bool)
@@ -299,9 +340,15 @@ def step (w : World) (op : Op) : World × Out :=
     | some s => let (s', r) := s.removeSpecies sp prune; (w.put k s', outOf r)
   | .merge k j pfx =>
     match w[k]?, w[j]? with
-    | some s, some o => if k = j then (w, .badOp) else
-        let (s', r) := s.merge o.edges pfx; (w.put k s', outOf r)
+    | some s, some o => let (s', r) := s.merge o.edges pfx; (w.put k s', outOf r)
     | _, _ => (w, .badOp)
+  | .mergeEdges k other pfx =>
+    match w[k]? with
+    | none => (w, .badOp)
+    | some s =>
+      match other with
+      | none => (w, .err .typeError)        -- `not hasattr(other, "edge_list")`
+      | some es => let (s', r) := s.mergeForeign es pfx; (w.put k s', outOf r)
   | .copy k j =>
     match w[k]? with
     | none => (w, .badOp)
